@@ -214,6 +214,48 @@ Commit(r, u, dd) ==
             /\ UNCHANGED blobs
   /\ UNCHANGED <<imm, mans, tags, touched>>
 
+\* ------------------------------------------------ wire-level uploads --
+\* The three upload requests any HTTP client may send to a server in front of the registry
+\* (ociserver handleBlobUploadChunk / handleBlobCompleteUpload / handleBlobUploadInfo), as the
+\* compositions of Resume, Write and Commit the server performs for them.  off = -2: the request
+\* carries no Content-Range (the server assumes offset 0).  The answer to a PATCH and to a status
+\* GET is the Range header "0-<end>", end = size - 1 (0 for an empty session).
+WireOff(off) == IF off = -2 THEN 0 ELSE off
+AfterResume(r, u, off) == IF Has(ups[r], u) THEN [ups[r][u] EXCEPT !.expect = off] ELSE NewUp(off)
+WireWrite(s, data) ==
+  IF data = <<>> THEN [ok |-> TRUE, s |-> s]
+  ELSE IF s.expect # -1 /\ s.expect # SizeOf(s.buf) THEN [ok |-> FALSE, s |-> s]
+  ELSE [ok |-> TRUE, s |-> [s EXCEPT !.buf = @ \o data, !.expect = -1]]
+RangeEnd(s) == IF SizeOf(s.buf) = 0 THEN 0 ELSE SizeOf(s.buf) - 1
+RawPatch(r, u, data, off) ==
+  LET w == WireWrite(AfterResume(r, u, WireOff(off)), data) IN
+  /\ ups' = [ups EXCEPT ![r] = Put(@, u, w.s)]
+  /\ touched' = touched \cup {r}
+  /\ res' = IF w.ok THEN OkN(RangeEnd(w.s)) ELSE ErrR("RANGE_INVALID")
+  /\ UNCHANGED <<imm, blobs, mans, tags>>
+RawStatus(r, u) ==
+  LET s == AfterResume(r, u, -1) IN
+  /\ ups' = [ups EXCEPT ![r] = Put(@, u, s)]
+  /\ touched' = touched \cup {r}
+  /\ res' = OkN(RangeEnd(s))
+  /\ UNCHANGED <<imm, blobs, mans, tags>>
+RawPut(r, u, data, off, dd) ==
+  LET w == WireWrite(AfterResume(r, u, WireOff(off)), data)
+      s == w.s IN
+  /\ touched' = touched \cup {r}
+  /\ IF ~w.ok THEN
+        ups' = [ups EXCEPT ![r] = Put(@, u, s)] /\ res' = ErrR("RANGE_INVALID") /\ UNCHANGED blobs
+     ELSE IF s.dead THEN
+        ups' = [ups EXCEPT ![r] = Put(@, u, s)] /\ res' = ErrR("FAIL") /\ UNCHANGED blobs
+     ELSE IF dd \in Cids /\ s.buf = Cat[dd].bytes THEN
+        /\ ups' = [ups EXCEPT ![r] = Put(@, u, [s EXCEPT !.done = TRUE])]
+        /\ blobs' = [blobs EXCEPT ![r] = @ \cup {dd}]
+        /\ res' = OkDesc(dd, None)
+     ELSE
+        /\ ups' = [ups EXCEPT ![r] = Put(@, u, [s EXCEPT !.dead = ~s.done])]
+        /\ res' = ErrR("DIGEST_INVALID") /\ UNCHANGED blobs
+  /\ UNCHANGED <<imm, mans, tags>>
+
 \* -------------------------------------------------------------- deletes --
 DeleteBlob(r, c) ==
   /\ IF c \notin blobs[r] THEN (\E code \in Unknowns(r, "BLOB_UNKNOWN") : res' = ErrR(code)) /\ UNCHANGED blobs
@@ -329,6 +371,9 @@ Apply(o) ==
     [] o.op = "Close" -> Close(o.r, o.u)
     [] o.op = "Cancel" -> Cancel(o.r, o.u)
     [] o.op = "Commit" -> Commit(o.r, o.u, o.dd)
+    [] o.op = "RawPatch" -> RawPatch(o.r, o.u, o.data, o.off)
+    [] o.op = "RawPut" -> RawPut(o.r, o.u, o.data, o.off, o.dd)
+    [] o.op = "RawStatus" -> RawStatus(o.r, o.u)
     [] o.op = "DeleteBlob" -> DeleteBlob(o.r, o.c)
     [] o.op = "DeleteManifest" -> DeleteManifest(o.r, o.c)
     [] o.op = "DeleteTag" -> DeleteTag(o.r, o.t)
@@ -363,6 +408,14 @@ Ops ==
   \cup {[op |-> "ListRepos", startpos |-> st] : st \in 0..5}
 Next == \E o \in Ops : Apply(o)
 Spec == Init /\ [][Next]_vars
+\* with the wire-level upload requests as well
+WireOpSet ==
+  {[op |-> "RawPatch", r |-> r, u |-> u, data |-> d, off |-> off] : r \in Repos, u \in UploadIds, d \in Chunks \cup {<<>>}, off \in {-2, 0, 1, 2}}
+  \cup {[op |-> "RawPut", r |-> r, u |-> u, data |-> d, off |-> off, dd |-> dd] :
+           r \in Repos, u \in UploadIds, d \in Chunks \cup {<<>>}, off \in {-2, 0, 1, 2}, dd \in BlobIds}
+  \cup {[op |-> "RawStatus", r |-> r, u |-> u] : r \in Repos, u \in UploadIds}
+NextW == \E o \in Ops \cup WireOpSet : Apply(o)
+SpecW == Init /\ [][NextW]_vars
 
 \* ----------------------------------------------------------- properties --
 TypeOK ==
@@ -395,6 +448,13 @@ ClosureKept == [][ClosureKeptStep]_vars
 TaggedPresent == imm => \A r \in Repos : \A t \in DOMAIN tags[r] : Has(mans[r], tags[r][t].c)
 \* C01/C04: nothing is ever stored by a failing call
 FailedCallStoresNothing == [][~res'.ok => (blobs' = blobs /\ mans' = mans /\ tags' = tags)]_vars
+\* C04: a write refused for its offset does not alter what any session holds
+RefusedKeepsUploads ==
+  [][(~res'.ok /\ res'.code = "RANGE_INVALID") => \A r \in Repos : \A u \in DOMAIN ups[r] : ups'[r][u].buf = ups[r][u].buf]_vars
+\* C04: whatever a commit (the call's own or the closing PUT's) stores is exactly what some session of the repository holds
+CommitStoresSession ==
+  [][\A r \in Repos : \A c \in blobs'[r] \ blobs[r] :
+        res'.kind = "desc" /\ (ups' # ups => \E u \in DOMAIN ups'[r] : ups'[r][u].buf = Cat[c].bytes /\ ups'[r][u].done)]_vars
 \* content only enters a repository through a successful push/mount/commit of that content
 OnlyPushedAppears ==
   [][\A r \in Repos : \A c \in blobs'[r] \ blobs[r] : res'.ok /\ res'.d = c]_vars
